@@ -8,7 +8,8 @@ import iongen
 
 THEOREMS = ["tw_no_panic_step", "tw_no_panic", "tw_sticky", "tw_error_recorded", "tw_sticky_seq", "tw_appends",
             "tw_prefix", "tw_fault_reported", "tw_fault_results", "tw_deterministic",
-            "tx_string_reads_back", "tx_symbol_reads_back", "tx_clob_reads_back", "tx_bare_symbol", "tx_quoted_symbol"]
+            "tx_string_reads_back", "tx_symbol_reads_back", "tx_clob_reads_back", "tx_bare_symbol", "tx_quoted_symbol",
+            "tw_tdecode_universe", "tw_tdecode_batches"]
 LEVEL = "other"
 EXPLANATION = ("K4: the text Writer model (Text/TextWriter.v, Text/TextOut.v) against the real Writer "
                "(NewTextWriterOpts x {compact, quiet, pretty, pretty+quiet}): per-call err==nil, accepted bytes and "
@@ -20,14 +21,17 @@ EXPLANATION = ("K4: the text Writer model (Text/TextWriter.v, Text/TextOut.v) ag
                "is permanent; a final nil Finish only after complete values; the bytes accepted under a failing "
                "io.Writer are a prefix of the fault-free bytes and some call reports the failure; same calls, same "
                "bytes; every symbol / string / clob / blob token decodes, under the escape rules of the Ion text "
-               "specification, to exactly the text or bytes written, and a symbol is quoted iff the grammar needs it.")
+               "specification, to exactly the text or bytes written, and a symbol is quoted iff the grammar needs it; "
+               "whole streams: whenever the final Finish returns nil (misuse sequences, token documents, forests; all four "
+               "option settings) the extracted specification decoder Text/SpecText.tdecode must accept the real "
+               "writer's bytes and recover exactly the values of the successful calls, batch by batch.")
 ASSUMPTIONS = ["Go == model only on the inputs sampled (finite domains exhaustively)",
                "strconv.FormatFloat(v,'e',-1,64), Decimal.String and Timestamp.String are inputs of the model "
                "(their text is taken from the real code and passed in the request line); the theorems hold for every "
                "such formatting",
                "writers created with shared symbol tables (NewTextWriter(out, sts...)) are not modelled",
-               "whether the whole output parses as Ion text and denotes the values written is judged by the "
-               "independent text parser of C04/C01, not here"]
+               "the tie of the writer model to the specification decoder is a theorem only on the finite universe of "
+               "Text/TextRoundtrip.v (tw_tdecode_universe); beyond it, it is the whole-stream oracle on the real code"]
 TRUSTED_EXTRA = ["hook file ion/export_verif_textwriter.go (re-exports only)"]
 
 ALPHA = [["FN", "tk,x61,-1"], ["AN", "tk,x62,-1"], ["NULL"], ["INT", "1"], ["SYM", "tk,x666f6f,-1"], ["SFS", "x6e6577"],
@@ -42,6 +46,7 @@ CONFIGS = [(0, "compact"), (2, "pretty"), (1, "quiet"), (3, "pretty-quiet")]
 KEYWORDS = {b"null", b"true", b"false", b"nan"}
 IDENT = re.compile(rb"[A-Za-z_$][A-Za-z0-9_$]*\Z")
 SID = re.compile(rb"\$[0-9]+\Z")
+IVM = re.compile(rb"\$ion_[0-9]+_[0-9]+\Z")      # bare at top level this is a version marker, not a symbol value
 SIMPLE_ESC = {ord("0"): 0, ord("a"): 7, ord("b"): 8, ord("t"): 9, ord("n"): 10, ord("f"): 12, ord("r"): 13, ord("v"): 11,
               ord("?"): 0x3F, ord('"'): 0x22, ord("'"): 0x27, ord("/"): 0x2F, ord("\\"): 0x5C}
 HEXD = b"0123456789abcdefABCDEF"
@@ -133,7 +138,7 @@ def check_symbol_spelling(text, tok):
         return "symbol token %r: %s" % (tok, d)
     if d != text:
         return "symbol token %r denotes %r, written %r" % (tok, d, text)
-    if tok[:1] == b"'" and not needs_quoting_spec(text):
+    if tok[:1] == b"'" and not needs_quoting_spec(text) and not IVM.match(text):
         return "symbol %r quoted although the grammar does not need it" % text
     return None
 
@@ -182,8 +187,9 @@ def spec_charclass(c):
     part = start or digit
     hexd = c < 128 and ch in "0123456789abcdefABCDEF"
     oper = c < 128 and ch in "!#%&*+-./;<=>?@^`|~"
-    stop = c < 128 and ch in "{}[](),\"' \t\n\r"
-    ws = c < 128 and ch in " \t\n\r"
+    # Ion text whitespace is U+0009..U+000D and U+0020
+    stop = c < 128 and ch in "{}[](),\"' \t\n\v\f\r"
+    ws = c < 128 and ch in " \t\n\v\f\r"
     return "".join("1" if b else "0" for b in (start, part, digit, hexd, oper, stop, ws))
 
 
@@ -235,6 +241,8 @@ def finite_oracle(line, go):
             return None
         if SID.match(text) and int(text[1:]) < 2 ** 63:
             return None       # $n is decided by symbolIdentifier before symbolNeedsQuoting is asked
+        if IVM.match(text):
+            return None       # must be quoted at top level (judged on whole streams), may be quoted anywhere
         exp = needs_quoting_spec(text)
         return None if g[1] == ("1" if exp else "0") else "symbolNeedsQuoting(%r) = %s" % (text, g[1])
     if cmd == "str_escape":
@@ -350,16 +358,122 @@ def normal_call(c):
     return c
 
 
-BIG_SID_TEXT = re.compile(r"x24((?:3[0-9]){19,})(?![0-9a-f])")
+IVM_TEXT = b"$ion_1_0".hex()
 
 
 def classify_case(line, model_out=None, go_out=None):
-    """symbol text '$' + digits whose number does not fit an int64: strconv.Atoi fails in symbolIdentifier, the
-    text then passes for an identifier and is written unquoted, i.e. spelled as a symbol ID"""
-    for m in BIG_SID_TEXT.finditer(line):
-        if int(bytes.fromhex(m.group(1)).decode()) >= 2 ** 63:
-            return "text-symbol-dollar-digits-beyond-int64-unquoted"
     return None
+
+
+def _top_level_bare_ivm(calls):
+    """does the sequence write, at top level and without annotations, a symbol value whose text has the shape of
+    a version marker ($ion_<digits>_<digits>)?"""
+    depth, annotated = 0, False
+    for c in calls:
+        k = c[0]
+        if k in ("AN", "ANS"):
+            annotated = True
+            continue
+        if k == "FN":
+            continue
+        if k in ("SYM", "SFS") and depth == 0 and not annotated:
+            tx = c[1].split(",")[1] if k == "SYM" else c[1]
+            if tx != "-" and IVM.match(bytes.fromhex(tx[1:])):
+                return True
+        if k in ("BL", "BS", "BT"):
+            depth += 1
+        elif k in ("EL", "ES", "ET"):
+            depth -= 1
+        annotated = False
+    return False
+
+
+def classify_stream(line, calls, expected, decoded):
+    """known-finding class of a whole-stream mismatch, or None.  Narrow: the class is given only when the sequence
+    contains the trigger AND removing exactly the values the trigger loses explains the whole difference."""
+    if decoded is not None and _top_level_bare_ivm(calls):
+        exp = expected.split(" ")
+        lost = {"Yt" + b.hex() for b in texts_of_calls(calls) if IVM.match(b)}
+        # drop top-level occurrences of the lost symbols from the expectation (depth tracked on the tokens)
+        out, depth, prev_ann = [], 0, False
+        for tk in exp:
+            if tk in lost and depth == 0 and not prev_ann:
+                continue
+            out.append(tk)
+            prev_ann = tk.startswith("a")
+            if tk in ("[", "(", "{"):
+                depth += 1
+            elif tk in ("]", ")", "}"):
+                depth -= 1
+        if " ".join(out) == decoded:
+            return "text-top-level-symbol-version-marker-written-bare"
+    return None
+
+
+# ---------------------------------------------------------------------------
+# whole-stream oracle (C04 / C01 / C12 text): the independent specification decoder Text/SpecText.tdecode must read
+# the real writer's bytes back as exactly the values of the successful calls
+# ---------------------------------------------------------------------------
+def texts_of_calls(calls):
+    """the symbol / string texts passed by the calls (bytes)"""
+    out = []
+    for c in calls:
+        if c[0] in ("FN", "AN", "SYM"):
+            tx = c[1].split(",")[1]
+            if tx != "-":
+                out.append(bytes.fromhex(tx[1:]))
+        elif c[0] == "ANS":
+            for tk in c[2:]:
+                tx = tk.split(",")[1]
+                if tx != "-":
+                    out.append(bytes.fromhex(tx[1:]))
+        elif c[0] in ("SFS", "STR"):
+            out.append(bytes.fromhex(c[1][1:]))
+    return out
+
+
+def expected_obs(ok_calls):
+    """observation text (syntax of Data/Ion.v show_values) of the values the successful calls denote, batch by batch;
+    raises iongen.Malformed / returns None when they are not complete, flushed values"""
+    batches = iongen.forest_of_calls([normal_call(c) for c in ok_calls])
+    if batches and batches[-1] is None:
+        return None
+    return " ".join(x for x in (iongen.show_forest(b) for b in batches) if x)
+
+
+def check_streams(ctx, component, items):
+    """items: (line, calls, go answer).  For every sequence whose last call is a Finish that returned nil."""
+    import c02
+    todo = []
+    for ln, calls, go in items:
+        p = parse_tw(go)
+        if p is None or not calls or calls[-1][0] != "FIN" or p[0][-1:] != "1":
+            continue
+        ok_calls = [c for c, r in zip(calls, p[0]) if r == "1"]
+        if not all(valid_utf8(x) for x in texts_of_calls(ok_calls)):
+            continue          # a Go string that is not UTF-8 is not Ion text: precondition of C04/C01
+        try:
+            exp = expected_obs(ok_calls)
+        except iongen.Malformed:
+            continue          # reported by oracle_seq
+        if exp is None:
+            continue
+        todo.append((ln, ok_calls, exp, p[1]))
+    dec = c02.tdecode_many([out for _, _, _, out in todo])
+    n_ok = 0
+    for (ln, ok_calls, exp, out), d in zip(todo, dec):
+        if d is None:
+            if out == b"" and exp == "":
+                n_ok += 1
+                continue
+            ctx.fail("property", component, ln, "final Finish returned nil but the bytes are outside the Ion text grammar "
+                     "(independent decoder): %r" % out[:200], classify_stream(ln, ok_calls, exp, d))
+        elif d != exp:
+            ctx.fail("property", component, ln, "independent text decoder recovers '%s' but the successful calls denote '%s'; "
+                     "bytes %r" % (d[:240], exp[:240], out[:200]), classify_stream(ln, ok_calls, exp, d))
+        else:
+            n_ok += 1
+    ctx.count(component, len(todo), [], agree=n_ok)
 
 
 # ---------------------------------------------------------------------------
@@ -388,7 +502,8 @@ def text_corpus():
             c += [ctx + b"ab", b"a" + ctx + b"b", b"ab" + ctx, ctx]
     c += [b"", b"null", b"true", b"false", b"nan", b"NULL", b"nul", b"nulls", b"null.int", b"+inf", b"-inf", b"inf",
           b"$0", b"$1", b"$10", b"$007", b"$+5", b"$-5", b"$", b"$$", b"$a", b"$1a", b"$9223372036854775807",
-          b"$9223372036854775808", b"$99999999999999999999", b"$ion", b"$ion_1_0", b"$ion_symbol_table",
+          b"$9223372036854775808", b"$99999999999999999999", b"$ion", b"$ion_1_0", b"$ion_2_0", b"$ion_10_11", b"$ion_1_", b"$ion__0", b"$ion_1_0_", b"$ion_1_0a", b"$ION_1_0",
+          b"$ion_1", b"$ion_", b"a$ion_1_0", b"$ion_symbol_table",
           b"$ion_shared_symbol_table", b"name", b"symbols", b"_", b"_1", b"a1", b"1a", b"a b", b"a.b", b"a-b", b"a::b",
           b"it's", b"'", b"''", b'"', b"\\", b"\\n", b"//", b"/*", b"*/", b"{}", b"{{", b"}}", b"[", b"(", b"a,b",
           "\u00e9".encode(), "\u65e5\u672c".encode(), "\U0001F600".encode(), "\ufffd".encode(), "\u2028".encode(), "\ufeff".encode(),
@@ -512,6 +627,7 @@ def run_proto(ctx):
             why = oracle_seq(q, g)
             if why:
                 ctx.fail("property", comp, ln, why, classify_case(ln))
+        check_streams(ctx, "text-stream-oracle-proto-" + name, zip(lines, qs, go))
 
 
 def run_forests(ctx):
@@ -537,6 +653,7 @@ def run_forests(ctx):
         else:
             n_ok += 1
     ctx.count("text-spelling-oracle", len(lines), [], agree=n_ok)
+    check_streams(ctx, "text-stream-oracle-tokens", [(ln, it[0], g) for ln, it, g in zip(lines, items, go)])
     # (2) random forests, all four configurations; legal sequences must succeed; same calls twice give the same bytes
     forests = [iongen.gen_forest(rng, {"depth": 3}) for _ in range(ctx.scale(1200, 20000))]
     # typed nulls, every scalar kind under annotation / field / list / sexp, deep nesting
@@ -563,6 +680,7 @@ def run_forests(ctx):
             p = parse_tw(g)
             if p is None or "0" in p[0]:
                 ctx.fail("property", comp, ln, "a legal call sequence was refused or crashed: " + g[:160], classify_case(ln))
+        check_streams(ctx, "text-stream-oracle-forests-" + name, zip(lines, qs, go))
     return seqs
 
 
